@@ -12,7 +12,7 @@ RULE = ('G: every heap of the CellDag machine within the cfg constants (TLC-enum
         'depth-1023 chain; distinct = distinct (route, cell content, child hashes) observations counted by reported hash+route')
 ASSUMPTIONS = ['TonSha.Sha256 anchored on FIPS vectors (ShaVectorsOk)', 'TonCell transcription of TVM 3.1.4-3.1.5',
                'record content (bits/refs/type) is read from the live objects through the public attributes']
-ROUTES = ['builder', 'ctor', 'boc', 'copy', 'slice', 'tobuilder', 'reuse', 'slice_part', 'slice_from_cell']
+ROUTES = ['builder', 'ctor', 'boc', 'copy', 'slice', 'tobuilder', 'reuse', 'slice_part', 'slice_from_cell', 'ctor_plain', 'ctor_plain_le']
 
 
 def dag_cfg(maxcells, bitlens, maxrefs, exotics='{}', maxlvl=1, symbolic='FALSE', emit='TRUE', invs=True):
@@ -49,7 +49,7 @@ def via_route(heap, route, rng):
     """-> record dict (without i)"""
     rec = {'op': 'cells', 'route': route, 'pairs': [], 'twins': []}
     groups = []
-    base = route if route in ('ctor', 'reuse') else 'builder'
+    base = route if route in ('ctor', 'reuse', 'ctor_plain', 'ctor_plain_le') else 'builder'
     try:
         objs = ck.build_heap(heap, base)
         if route == 'boc':
